@@ -226,6 +226,7 @@ class PathTable:
                                 l.store_at[(id(st), unparse(e))] = (T.tr(e.value), T._index(e.slice))
                             except AnalysisError:
                                 pass
+                            self._row_store(e, vv, l, T)
             else:
                 l.events.append(("store", unparse(t), v, st))
                 if isinstance(t, ast.Subscript):
